@@ -72,7 +72,7 @@ def run_item(item):
             continue
         val = out[1]
         d = zreal(val)
-        ob.prove(zabs(d - spec) <= rv(TOL), "delta == Das-Pappu definition", cex)
+        ob.prove(within(d - spec, TOL), "delta == Das-Pappu definition", cex)
         if len(res["samples"]) < 2:
             res["samples"].append(dict(item=item["name"], witness=seq_of_model(m, vs), obligation="|delta_impl - delta_spec| <= 1e-9 for all %d-mers with (n+,n-)=(%d,%d)" % (N, a, b)))
         # translator validation on the witness and a few random members of the composition
